@@ -297,19 +297,18 @@ func anyOutstanding(ds []*gDelivery) bool {
 	return false
 }
 
-// ledgerMonitor evaluates Spec.Ledger (Lean) on the implementation's history.
-func ledgerMonitor(lines, outs []string, m *Model) []Violation {
+// ledgerJudge evaluates Spec.Ledger (Lean) on one history (the implementation's outputs, or the model's).
+func ledgerJudge(lines, outs []string, m *Model) (kv map[string]bool, verdict string, panicked bool) {
 	m.Do("ledgermon reset")
 	nitems := 0
 	lastAck := 0
-	panicked := false
 	for i, l := range lines {
 		if i >= len(outs) {
 			break
 		}
 		w := strings.Fields(l)
 		o := outs[i]
-		if o == "dead" {
+		if o == "dead" || len(w) < 2 {
 			continue
 		}
 		switch w[1] {
@@ -346,29 +345,57 @@ func ledgerMonitor(lines, outs []string, m *Model) []Violation {
 			}
 		}
 	}
-	v, _ := m.Do(fmt.Sprintf("ledgermon verdict %d %d", nitems, lastAck))
-	kv := map[string]bool{}
-	for _, f := range strings.Fields(v) {
+	verdict, _ = m.Do(fmt.Sprintf("ledgermon verdict %d %d", nitems, lastAck))
+	kv = map[string]bool{}
+	for _, f := range strings.Fields(verdict) {
 		p := strings.SplitN(f, "=", 2)
 		if len(p) == 2 {
 			kv[p[0]] = p[1] == "true"
 		}
 	}
+	return
+}
+
+// ledgerMonitor judges the implementation's history. A violation on a history that contains a superseded
+// delivery (NoStale fails) is attributed to the recorded finding F1 ONLY IF the model of the code as it is
+// today, run on the same operations, shows the same violation: the model pins today's behaviour, so a
+// different defect that needs the same kind of history (e.g. a changed supersession rule that releases a
+// redelivered transaction early) is not hidden behind the known finding.
+func ledgerMonitor(lines, outs []string, m *Model) []Violation {
+	kv, v, panicked := ledgerJudge(lines, outs, m)
 	var vs []Violation
 	if !kv["contract"] {
 		return nil // outside the ledger's contract: nothing is promised
 	}
-	known := ""
-	if !kv["nostale"] {
-		known = "stale_written_after_supersede"
+	unsafe := !kv["safe"]
+	undrained := !panicked && kv["drainhyps"] && !kv["drained"] && endsWithEmitSnap(lines)
+	knownFor := func(kind string) string { return "" }
+	if !kv["nostale"] && (unsafe || panicked || undrained) {
+		mouts := make([]string, 0, len(lines))
+		for _, l := range lines {
+			o, err := m.Do(l)
+			if err != nil {
+				o = "?"
+			}
+			mouts = append(mouts, o)
+		}
+		mkv, _, mpanicked := ledgerJudge(lines, mouts, m)
+		munsafe := !mkv["safe"]
+		mundrained := !mpanicked && mkv["drainhyps"] && !mkv["drained"] && endsWithEmitSnap(lines)
+		knownFor = func(kind string) string {
+			if (kind == "unsafe" && munsafe) || (kind == "panic" && mpanicked) || (kind == "undrained" && (mundrained || mpanicked)) {
+				return "stale_written_after_supersede"
+			}
+			return ""
+		}
 	}
-	if !kv["safe"] {
-		vs = append(vs, Violation{"C01", "ledger emitted a position although a delivery committed at or before it is not completely written (" + v + ")", known})
+	if unsafe {
+		vs = append(vs, Violation{"C01", "ledger emitted a position although a delivery committed at or before it is not completely written (" + v + ")", knownFor("unsafe")})
 	}
 	if panicked {
-		vs = append(vs, Violation{"C02", "tracker panics (duplicate seen) on a contract-respecting trace (" + v + ")", known})
-	} else if kv["drainhyps"] && !kv["drained"] && endsWithEmitSnap(lines) {
-		vs = append(vs, Violation{"C02", "ledger does not drain although every delivery is complete (" + v + ")", known})
+		vs = append(vs, Violation{"C02", "tracker panics (duplicate seen) on a contract-respecting trace (" + v + ")", knownFor("panic")})
+	} else if undrained {
+		vs = append(vs, Violation{"C02", "ledger does not drain although every delivery is complete (" + v + ")", knownFor("undrained")})
 	}
 	return vs
 }
